@@ -48,7 +48,14 @@ func (en *c8env) ops() map[string]eval.Operator {
 			return s, nil
 		}
 	}
-	return map[string]eval.Operator{"f": sum("f"), "g2": sum("g2"), "f0": sum("f0")}
+	return map[string]eval.Operator{"f": sum("f"), "g2": sum("g2"), "f0": sum("f0"), "f-other": func(ctx *eval.Ctx, params []eval.Value) (eval.Value, error) {
+		// a DIFFERENT operator that another config registers under the same name f
+		v, err := sum("f")(ctx, params)
+		if err != nil {
+			return nil, err
+		}
+		return v.(int64)*10 + 7, nil
+	}}
 }
 
 // c8Configs builds the three caller configs (fresh objects on every call).
@@ -75,7 +82,8 @@ func c8Configs(en *c8env) []*eval.Config {
 	}
 	a.CostsMap["x"] = 100
 	a.CostsMap["f"] = -3
-	a.StatelessOperators = append(make([]string, 0, 8), "f", "f0") // spare capacity: a shallow copy would share it
+	delete(a.OperatorMap, "f-other")
+	a.StatelessOperators = append(make([]string, 0, 8), "zz_unregistered", "f0", "f") // not alphabetical; spare capacity: a shallow copy would share it
 
 	b := eval.NewConfig()
 	b.ConstantMap["K1"] = int64(1)
@@ -84,12 +92,13 @@ func c8Configs(en *c8env) []*eval.Config {
 	for k, v := range ops {
 		b.OperatorMap[k] = v
 	}
+	delete(b.OperatorMap, "f-other")
 	b.CompileOptions[eval.Reordering] = false
 	b.CompileOptions[eval.FastEvaluation] = true
 
 	c := eval.NewConfig()
 	c.ConstantMap["K1"] = int64(2)
-	c.OperatorMap["f"] = ops["f"]
+	c.OperatorMap["f"] = ops["f-other"] // same name, different operator than in configs A and B
 	c.OperatorMap["g2"] = ops["g2"]
 	c.CompileOptions[eval.AllowUndefinedVariable] = true
 	c.CompileOptions[eval.ReportEvent] = true
